@@ -1,6 +1,6 @@
 (* C10 — fields are linear in sources and initial state.  Model: model/Yee.v; lemmas: proofs/Yee_linear.v, proofs/Yee_linear_pml.v *)
 From Coq Require Import List Arith.
-From FV Require Import base.Scalar base.Cplx model.Yee proofs.Yee_steps proofs.Yee_pml_loop proofs.Yee_linear proofs.Yee_linear_pml.
+From FV Require Import base.Scalar base.Cplx model.Yee proofs.Yee_steps proofs.Yee_pml_loop proofs.Yee_linear proofs.Yee_linear_pml model.YeeFull proofs.Yee_full_props.
 Import ListNotations.
 
 (* For every scene of the model — any grid, ghost factors (periodic / Bloch / zero halo), widths, wall masks, iso/diagonal lossy
@@ -26,3 +26,17 @@ Theorem C10_cpml_step_linear : forall (K : Fld) (a b ca cb ik : car K) k1 sim d1
    lc2 K a b (snd (cpml_step K ca cb ik k1 sim d1 p1)) (snd (cpml_step K ca cb ik k1 sim d2 p2))).
 Proof. exact cpml_step_lin. Qed.
 Print Assumptions C10_cpml_step_linear.
+
+(* The fully anisotropic lossless tiers (model/YeeFull.v; 9-component inverse permittivity and / or permeability, co-location
+   averages with ghost reads), PML-free scenes: the same superposition statement, for any number of steps.  A tier given as None is
+   the iso / diagonal tier. *)
+Theorem C10_forward_full_tensor_linear : forall (K : Fld) (sc : scene K) (a b : car K), pmls K sc = [] ->
+  forall (ie9 im9 : option (T9 K)) jE1 jH1 jE2 jH2 n s1 s2 s3,
+  tstep s2 = tstep s1 -> tstep s3 = tstep s1 ->
+  veqA K (fE s3) (lcV K a b (fE s1) (fE s2)) -> veqA K (fH s3) (lcV K a b (fH s1) (fH s2)) ->
+  let sc1 := with_inj K sc jE1 jH1 in let sc2 := with_inj K sc jE2 jH2 in
+  let sc3 := with_inj K sc (fun t => lcV K a b (jE1 t) (jE2 t)) (fun t => lcV K a b (jH1 t) (jH2 t)) in
+  veqA K (fE (iterF K ie9 im9 sc3 n s3)) (lcV K a b (fE (iterF K ie9 im9 sc1 n s1)) (fE (iterF K ie9 im9 sc2 n s2))) /\
+  veqA K (fH (iterF K ie9 im9 sc3 n s3)) (lcV K a b (fH (iterF K ie9 im9 sc1 n s1)) (fH (iterF K ie9 im9 sc2 n s2))).
+Proof. intros K sc a b Hp ie9 im9. exact (forward_full_linear_n K sc a b Hp ie9 im9). Qed.
+Print Assumptions C10_forward_full_tensor_linear.
